@@ -247,6 +247,34 @@ def F6_C17_helper_name_collision():
         return "fields y / converter_y collide on __attr_converter_y (y=%r)" % (c.y,)
 
 
+def F13_C13_single_field_namedtuple():
+    NT1 = collections.namedtuple("NT1", "a")
+
+    @attr.s
+    class C:
+        x = attr.ib()
+
+    r = attr.asdict(C(NT1(5)), retain_collection_types=True)
+    if r != {"x": NT1(5)}:
+        return "asdict: single-field namedtuple rebuilt as %r" % (r,)
+    r = attr.astuple(C([NT1(5)]), retain_collection_types=True)
+    if r != ([NT1(5)],):
+        return "astuple: single-field namedtuple rebuilt as %r" % (r,)
+
+
+def F14_C13_nested_collection_in_key():
+    @attr.s
+    class C:
+        x = attr.ib()
+
+    try:
+        r = attr.asdict(C({(1, (2, 3)): 0}))
+    except TypeError:
+        return "asdict: collection nested in a collection-valued dict key -> TypeError (unhashable)"
+    if r != {"x": {(1, (2, 3)): 0}}:
+        return "asdict: wrong result %r" % (r,)
+
+
 ALL = {k: v for k, v in list(globals().items()) if k[0] in "FK" and k[1].isdigit()}
 
 if __name__ == "__main__":
